@@ -117,6 +117,42 @@ impl Setting for AllocLimit {
     }
 }
 
+/// The same setting when its first use is the schema-aware deserializer's block-count check (a typed
+/// decode of an array) instead of a length check of the generic decoder.
+struct AllocLimitTypedUse;
+
+fn accepts_typed_array_len(n: u64) -> bool {
+    let schema = Schema::parse_str(r#"{"type":"array","items":"null"}"#).unwrap();
+    let r = apache_avro::reader::datum::GenericDatumReader::builder(&schema).build().unwrap();
+    let mut input = varint(n);
+    input.push(0);
+    r.read_deser::<Vec<()>>(&mut &input[..]).is_ok()
+}
+
+impl Setting for AllocLimitTypedUse {
+    fn name(&self) -> &'static str {
+        "max_allocation_bytes (first use: typed array decode)"
+    }
+    fn focus(&self) -> &'static str {
+        "usize"
+    }
+    fn run(&self, op: Op) -> u8 {
+        match op {
+            Op::Use => {
+                if accepts_typed_array_len(150) {
+                    B | D
+                } else {
+                    A
+                }
+            }
+            other => AllocLimit.run(other),
+        }
+    }
+    fn settle(&self) -> u8 {
+        AllocLimit.settle()
+    }
+}
+
 // --- human readable flag ----------------------------------------------------------------------
 
 struct HumanReadable;
@@ -296,6 +332,7 @@ impl Setting for Comparator {
 fn settings() -> Vec<Arc<dyn Setting>> {
     vec![
         Arc::new(AllocLimit),
+        Arc::new(AllocLimitTypedUse),
         Arc::new(HumanReadable),
         Arc::new(ValidatorSetting {
             name: "set_schema_name_validator",
